@@ -57,9 +57,11 @@ func TestPlan(t *testing.T) {
 			n, c = 16, 60000
 		}
 		p.Shards = append(p.Shards, ev.RapidShards("prog", "^TestC06Prog$", n, c, nil)...)
-		if thorough {
-			p.Shards = append(p.Shards, ev.ShardSpec{Name: "layouts", Test: "^TestC06Layouts$"})
+		per := uint64(1)
+		if !thorough {
+			per = 6 // quick: the same enumeration, structures grouped, capped lower by the shard itself
 		}
+		p.Shards = append(p.Shards, ev.RangeShards("layouts", "^TestC06Layouts$", uint64(len(layoutStructures)), per, nil)...)
 	case "C08":
 		p.CrashIsViolation = true
 		p.ReplayKindCrash = "input-inflight"
@@ -76,6 +78,15 @@ func TestPlan(t *testing.T) {
 		p.Shards = append(p.Shards, enum...)
 		p.Shards = append(p.Shards, ev.RapidShards("prog", "^TestProg$", nr, checks, nil)...)
 		p.Shards = append(p.Shards, ev.RapidShards("soup", "^TestSoup$", nr, checks*2, nil)...)
+	}
+	if thorough && id() != "C06" {
+		// native coverage-guided fuzzing: seeded from the repository's inputs, and once from an empty corpus
+		p.Parallel = 0
+		p.Shards = append(p.Shards,
+			ev.ShardSpec{Name: "fuzz-seeded", Test: "^FuzzInput$", Fuzz: true, Env: map[string]string{"VERIF_FUZZTIME": "90s"}, TimeoutS: 1200},
+			ev.ShardSpec{Name: "fuzz-empty", Test: "^FuzzInput$", Fuzz: true, Env: map[string]string{"VERIF_FUZZTIME": "60s", "VERIF_FUZZ_EMPTY": "1"}, TimeoutS: 1200},
+			ev.ShardSpec{Name: "fuzz-soup", Test: "^FuzzSoup$", Fuzz: true, Env: map[string]string{"VERIF_FUZZTIME": "60s"}, TimeoutS: 1200},
+		)
 	}
 	if err := ev.WritePlan(p); err != nil {
 		t.Fatal(err)
@@ -384,4 +395,87 @@ func repeat(s string, n int) string {
 		out = append(out, s...)
 	}
 	return string(out)
+}
+
+// ---- exhaustive layout enumeration for small fixed structures (C06, thorough) ----------
+
+func s(args ...gen.Arg) []gen.Arg { return args }
+func str(t string) gen.Arg        { return gen.Arg{Str: true, Text: t} }
+func idt(t string) gen.Arg        { return gen.Arg{Text: t} }
+
+var layoutStructures = [][]gen.Stmt{
+	{{Kind: "comment", Text: " a comment"}},
+	{{Kind: "assign", Name: "X", ValKind: "string", ValText: "v"}},
+	{{Kind: "assign", Name: "X", ValKind: "func", ValText: "join", Args: s(str("a"), str("b"))}},
+	{{Kind: "assign", Name: "X", ValKind: "func", ValText: "exec", Args: s(str("git rev-parse HEAD"))}},
+	{{Kind: "assign", Name: "X", ValKind: "func", ValText: "join"}},
+	{{Kind: "task", Name: "t"}},
+	{{Kind: "task", Name: "t", Cmds: []string{"go test ./..."}}},
+	{{Kind: "task", Name: "t", Cmds: []string{"echo {{.X}}", "ls -la"}}},
+	{{Kind: "task", Name: "t", HasDoc: true, Doc: " doc", Cmds: []string{"a"}}},
+	{{Kind: "task", Name: "t", Deps: s(str("**/*.go")), Cmds: []string{"a"}}},
+	{{Kind: "task", Name: "t", Deps: s(str("a.go"), idt("dep")), Cmds: []string{"a"}}},
+	{{Kind: "task", Name: "t", Outs: s(str("bin/x")), Cmds: []string{"a"}}},
+	{{Kind: "task", Name: "t", Outs: s(idt("OUT")), Cmds: []string{"a"}}},
+	{{Kind: "task", Name: "t", Outs: s(str("a"), idt("B"))}},
+	{{Kind: "task", Name: "t", Deps: s(idt("d")), Outs: s(str("o"))}},
+	{{Kind: "comment", Text: " c"}, {Kind: "assign", Name: "X", ValKind: "string", ValText: "v"}},
+	{{Kind: "assign", Name: "X", ValKind: "string", ValText: "v"}, {Kind: "task", Name: "t", Cmds: []string{"a"}}},
+	{{Kind: "assign", Name: "X", ValKind: "func", ValText: "join", Args: s(str("a"))}, {Kind: "comment", Text: " c"}},
+	{{Kind: "task", Name: "a"}, {Kind: "task", Name: "b", Deps: s(idt("a"))}},
+	{{Kind: "comment", Text: ""}, {Kind: "task", Name: "t", HasDoc: true, Doc: " d"}},
+	{{Kind: "comment", Text: " c"}, {Kind: "comment", Text: " d"}, {Kind: "assign", Name: "é", ValKind: "string", ValText: "λ"}},
+	{{Kind: "task", Name: "tasks", Cmds: []string{"echo task"}}},
+	{{Kind: "assign", Name: "task_x", ValKind: "string", ValText: "#"}},
+	{{Kind: "task", Name: "t", Cmds: []string{"a", "b", "c"}}},
+	{{Kind: "task", Name: "t", Deps: s(str("x"), str("y"), str("z"))}},
+	{{Kind: "assign", Name: "A", ValKind: "string", ValText: ""}, {Kind: "assign", Name: "B", ValKind: "func", ValText: "exec", Args: s(idt("A"))}},
+	{{Kind: "task", Name: "t", HasDoc: true, Doc: "d", Deps: s(str("a")), Outs: s(str("b")), Cmds: []string{"c"}}},
+	{{Kind: "comment", Text: " only"}, {Kind: "comment", Text: "#"}},
+	{{Kind: "task", Name: "t", Cmds: []string{"echo \"q\" 'r'"}}, {Kind: "comment", Text: " end"}},
+	{{Kind: "task", Name: "中", Deps: s(idt("é")), Cmds: []string{"a {{.B}}"}}},
+}
+
+func layoutCapN() int {
+	if ev.Thorough() {
+		return 2000000
+	}
+	return 30000
+}
+
+func TestC06Layouts(t *testing.T) {
+	sh := ev.Open(t, "C06")
+	lo, hi := ev.RangeFromEnv()
+	rep := &reporter{s: sh}
+	for si := int(lo); si < int(hi) && si < len(layoutStructures); si++ {
+		want := gen.Normalize(layoutStructures[si])
+		od := gen.NewOdometer()
+		n := 0
+		for {
+			src := gen.Render(od, want)
+			n++
+			sh.Eval()
+			c := ProgCase{Src: mkInput(src), Want: want}
+			if f := checkC06(sh, c); f != nil {
+				rep.fail(f, c)
+				if f.Sig == "harness" {
+					break
+				}
+			}
+			if n == 1 || n == 1000 {
+				sh.Sample(map[string]any{"structure": si, "layout_no": n, "src": c.Src.Text})
+			}
+			if !od.Next() || n >= layoutCapN() {
+				break
+			}
+		}
+		sh.Class(fmt.Sprintf("structure_%02d_layouts", si))
+		sh.ClassN(fmt.Sprintf("structure_%02d_layouts", si), int64(n-1))
+		if n >= layoutCapN() {
+			sh.Note("structure %d: layout space larger than %d, enumeration capped (depth-first prefix of the space)", si, layoutCapN())
+		}
+	}
+	if sh.Failed() {
+		t.Fatal("violations recorded")
+	}
 }
